@@ -1,4 +1,4 @@
-HOOK_COMMITS = ["d87235b", "d034a16", "c996de6"]  # H2 verifPoint (db/verif_points_{on,off}.go + one call site); H1 is overlaid from /verif/harness/base
+HOOK_COMMITS = ["d87235b", "d034a16", "c996de6", "9ba0c02"]  # H2 verifPoint (db/verif_points_{on,off}.go + one call site); H1 is overlaid from /verif/harness/base
 NOT_APPLICABLE_REASON = {}
 
 # properties whose check is finished and registered in MANIFEST.json (others are listed under not_applicable until then)
